@@ -16,9 +16,11 @@ FUNCTIONS = [
     "unsignedbyte / non_negative_integer / positive_integer / non_positive_integer / negative_integer",
     "rdflib.term._parseBoolean", "rdflib.term._well_formed_boolean", "rdflib.xsd_datetime.max_days_in_month",
     "rdflib.term._strip_and_collapse_whitespace", "rdflib.term._normalise_XSD_STRING", "rdflib.xsd_datetime.ISO8601_PERIOD_REGEX (live)",
-    "rdflib.term._lang_tag_regex (live)",
+    "rdflib.term._lang_tag_regex (live)", "rdflib.term.Literal.eq / neq (numeric fast path and same-datatype value comparison)",
 ]
-STUBS = []  # duration_isoformat with a symbolic record stub was tried: int->str conversions do not conclude (900 s), obligation dropped
+STUBS = ["k-eq-numeric: Literal instances are built with str.__new__ and their _value/_datatype slots set to a symbolic integer and a "
+         "numeric XSD datatype (the constructor would realise the lexical form)"]
+_DROPPED = []  # duration_isoformat with a symbolic record stub was tried: int->str conversions do not conclude (900 s), obligation dropped
 ASSUMPTIONS = ["only the direction the property states is demanded of the range checks: a value inside the XSD value space must not be "
                "flagged ill-typed (rdflib accepting too much, e.g. no upper bound for xsd:unsignedLong, is not a violation of the text)"]
 
@@ -119,7 +121,40 @@ def k_duration_iso(desc, F, days, secs, us):
     return None
 
 
-BODIES = {"k-int-range": k_int_range, "k-boolean": k_boolean, "k-days-in-month": k_days_in_month, "k-ws-idempotent": k_ws_idempotent,
+NUMERIC_DT = ["integer", "decimal", "long", "int", "nonNegativeInteger", "double"]
+
+
+def k_eq_numeric(desc, F, a, b):
+    """Literal.eq on two numeric literals whose values are symbolic integers (lexical forms not modelled: the receiver is a Literal
+    instance built without the constructor, with _value / _datatype set): value-space equality = equality of the values"""
+    from rdflib.term import Literal, URIRef
+
+    def mk(v, dt):
+        inst = str.__new__(Literal, "0")
+        inst._value = v
+        inst._datatype = URIRef(XSD + dt)
+        inst._language = None
+        inst._ill_typed = False
+        return inst
+
+    x, y = mk(a, desc["dt1"]), mk(b, desc["dt2"])
+    want = a == b
+    try:
+        got = Literal.eq(x, y)
+    except TypeError:
+        return "eq raises TypeError for two numeric literals with values"
+    if bool(got) != bool(want):
+        return "value-space equality of numeric literals disagrees with equality of their values"
+    if bool(Literal.neq(x, y)) == bool(want):
+        return "neq is not the negation of eq"
+    if desc["dt1"] == "integer":
+        # comparison with a plain Python int
+        if bool(Literal.eq(x, b)) != bool(want):
+            return "eq(literal, python int) disagrees with equality of the values"
+    return None
+
+
+BODIES = {"k-eq-numeric": k_eq_numeric, "k-int-range": k_int_range, "k-boolean": k_boolean, "k-days-in-month": k_days_in_month, "k-ws-idempotent": k_ws_idempotent,
           "k-duration-iso": k_duration_iso}
 
 SEC = r"[0-9]+(?:\.[0-9]+)?S"
@@ -176,6 +211,11 @@ def obligations(tier, seed):
         obs.append(dict(oid="R/" + name, family="regex-inclusion", runner="custom", desc={"name": name}, sig=[], budget=120))
     for dt in RANGES:
         obs.append(dict(oid="K/int-range/%s" % dt, family="k-int-range", desc={"dt": dt}, sig=[("v", "i")], budget=60))
+    for d1 in NUMERIC_DT:
+        for d2 in NUMERIC_DT:
+            if d1 <= d2:
+                obs.append(dict(oid="K/eq-numeric/%s-%s" % (d1, d2), family="k-eq-numeric", desc={"dt1": d1, "dt2": d2},
+                                sig=[("a", "i"), ("b", "i")], budget=120))
     obs.append(dict(oid="K/boolean", family="k-boolean", desc={}, sig=[("s", "s")], pre=["len(s) <= 5"], budget=200))
     obs.append(dict(oid="K/days-in-month", family="k-days-in-month", desc={}, sig=[("y", "i"), ("m", "i")], pre=["1 <= m <= 12"], budget=120))
     n = 3 if tier == "quick" else 4
@@ -187,6 +227,7 @@ def obligations(tier, seed):
 
 def bounds(tier):
     return {"k-int-range": "13 integer-derived datatypes, all integers (unbounded)", "k-boolean": "all strings of length <= 5",
+            "k-eq-numeric": "Literal.eq / neq for every pair of 6 numeric datatypes, values all integers (unbounded), and against a Python int",
             "k-days-in-month": "all integer years, months 1..12", "k-ws-idempotent": "all strings of length <= %d" % (3 if tier == "quick" else 4),
             "regex-inclusion": "XSD duration and language lexical spaces within the live parsing patterns, strings of every length",
             "outside": "float/double/decimal/date/time/dateTime value mappings, Literal construction itself, eq() on values"}
